@@ -206,6 +206,19 @@ def ops : List (String × Handler) := [
           | none => pure (jErr "error")
           | some r => pure (ofList ofEvent r)
         | _, _ => pure (jErr "error")),
+  ("tail_clause_hyp", fun j => do
+      -- the hypotheses of Props/C01Tail `tail_far_never_consistent_geom`, decided per isoform
+      let p ← jParams (← arg j "params")
+      let blocks ← jIvList (← arg j "blocks")
+      let pa ← jPolyA (← arg j "polya")
+      match ← getGene j with
+      | none => pure (jErr "error")
+      | some g =>
+        match constructProfiles g p blocks pa with
+        | none => pure (jErr "error")
+        | some rp => pure (Json.mkObj [("hyp", ofBool (tailClauseHyp g p rp)),
+            ("isoforms", ofList (fun I => Json.mkObj [("id", ofNat I.id), ("tail_far", ofBool (tailFarB p rp I)),
+              ("end_geom", ofBool (endGeomB p rp I))]) g.isos)])),
   ("scores", fun j => do
       let p ← jParams (← arg j "params")
       let blocks ← jIvList (← arg j "blocks")
